@@ -366,7 +366,30 @@ def exc_frame(exc: BaseException) -> str:
 # one generated case / one catalogue member
 
 
+class _Hang(BaseException):
+    pass
+
+
+def _alarm(_s: int, _f: Any) -> None:
+    raise _Hang()
+
+
 def judge_generated(case: dict[str, Any], mode: str, render: Any, parse: Any, wellformed: Any) -> tuple[list[tuple[str, str]], dict[str, Any]]:
+    """Hang guard around one generated case: SymPy evaluates e.g. cos(6.02e23**5) numerically at construction, which
+    needs pi to ~1e120 digits. Expiry == discarded (counted), never a verdict."""
+    import signal
+    old = signal.signal(signal.SIGALRM, _alarm)
+    signal.alarm(6)
+    try:
+        return _judge_generated(case, mode, render, parse, wellformed)
+    except _Hang:
+        return [], {"discard": "hang-guard"}
+    finally:
+        signal.alarm(0)
+        signal.signal(signal.SIGALRM, old)
+
+
+def _judge_generated(case: dict[str, Any], mode: str, render: Any, parse: Any, wellformed: Any) -> tuple[list[tuple[str, str]], dict[str, Any]]:
     info: dict[str, Any] = {}
     pool = Pool(case)
     try:
@@ -396,6 +419,8 @@ def record_generated(rec: Recorder, case: dict[str, Any], res: list[tuple[str, s
     labels = ["generated"]
     if "discard" in info:
         labels.append("discard:" + info["discard"])
+        if info["discard"] == "hang-guard":
+            rec.inconclusive += 1
     if "status" in info:
         labels.append("status:" + info["status"])
     nt = bool(info.get("nontrivial")) and info.get("status") == "ok"
